@@ -185,6 +185,10 @@ func c03Run(c *Ctx, k protoCase) {
 	want := l.treeOfAbstract(k.Shape, k.Val)
 	fail := func(api, w, g, finding string) { c.Diverge("C03", api, w, g, finding, k) }
 	x, t := goValue(l, k.Shape, k.Val, k.Ptr)
+	if k.What == "toplevel" {
+		c03TopLevel(c, k, topLevelBlob(x, k.Ptr))
+		return
+	}
 	var b []byte
 	var err error
 	for _, ph := range k.Poison {
@@ -231,6 +235,42 @@ func c03Run(c *Ctx, k protoCase) {
 			finding = "F-C03-1"
 		}
 		fail("proto.Unmarshal(Marshal(v))", treeString(want), treeString(got)+" bytes="+hex.EncodeToString(b), finding)
+	}
+}
+
+// c03TopLevel: Size / Marshal / Unmarshal on a value with marshalling methods of its own
+func c03TopLevel(c *Ctx, k protoCase, x any) {
+	fail := func(api, w, g string) { c.Diverge("C03", api+"(top-level "+k.Shape[0].K+")", w, g, "", k) }
+	var b []byte
+	var err error
+	size := 0
+	c.Eval(1)
+	if p := protect(func() { b, err = proto.Marshal(x); size = proto.Size(x) }); p != "" {
+		fail("proto.Marshal", "no panic", p)
+		return
+	}
+	if err != nil {
+		fail("proto.Marshal", "nil error", err.Error())
+		return
+	}
+	if size != len(b) {
+		fail("proto.Size", fmt.Sprintf("len(Marshal)=%d", len(b)), fmt.Sprint(size))
+	}
+	t := reflect.TypeOf(x)
+	if t.Kind() == reflect.Pointer {
+		t = t.Elem()
+	}
+	out := reflect.New(t)
+	if p := protect(func() { err = proto.Unmarshal(b, out.Interface()) }); p != "" || err != nil {
+		fail("proto.Unmarshal(Marshal(v))", "nil error", fmt.Sprintf("%v %s", err, p))
+		return
+	}
+	want := reflect.ValueOf(x)
+	if want.Kind() == reflect.Pointer {
+		want = want.Elem()
+	}
+	if w, g := canonScalar(k.Shape[0].K, want.Interface()), canonScalar(k.Shape[0].K, out.Elem().Interface()); w != g {
+		fail("proto.Unmarshal(Marshal(v))", w, g)
 	}
 }
 
@@ -288,6 +328,13 @@ func c03Vector(c *Ctx, raw stdjson.RawMessage) {
 			c03Run(c, protoCase{Shape: v.Shape, Val: v.Val, Salt: salt, Ptr: ptr})
 		}
 	}
+	// a value with marshalling methods of its own as the top-level argument
+	if len(v.Shape) == 1 && v.Shape[0].C == "one" && isBlobKind(v.Shape[0].K) {
+		for _, ptr := range []bool{false, true} {
+			c.Case()
+			c03Run(c, protoCase{Shape: v.Shape, Val: v.Val, Salt: salts[1], Ptr: ptr, What: "toplevel"})
+		}
+	}
 	// history: the round trip after failed decodes of damaged encodings of other values of the same type
 	key := shapeKey(v.Shape)
 	c03PrevMu.Lock()
@@ -333,7 +380,9 @@ func c03Vector(c *Ctx, raw stdjson.RawMessage) {
 	// model conformance (informational, not a verdict): does the package still encode by the policy in ImplWire?
 	l := lift{0}
 	x, _ := goValue(l, v.Shape, v.Val, false)
-	if b, err := proto.Marshal(x); err == nil && !hasBigMap(v.Val) {
+	var b []byte
+	var err error
+	if pan := protect(func() { b, err = proto.Marshal(x) }); pan == "" && err == nil && !hasBigMap(v.Val) {
 		if !bytes.Equal(b, l.encodeRecs(v.Impl, wireOpts{})) {
 			c.Extra("impl_policy_drift", 1)
 		} else {
@@ -430,9 +479,11 @@ func c12Decode(c *Ctx, k protoCase, finding string) {
 func c12Encode(c *Ctx, k protoCase) {
 	l := lift{k.Salt}
 	x, _ := goValue(l, k.Shape, k.Val, k.Ptr)
-	b, err := proto.Marshal(x)
+	var b []byte
+	var err error
+	pan := protect(func() { b, err = proto.Marshal(x) })
 	c.Eval(1)
-	if err != nil {
+	if err != nil || pan != "" {
 		return // C03's business
 	}
 	want := treeString(l.treeOfAbstract(k.Shape, k.Val))
@@ -531,13 +582,38 @@ func c12Replay(c *Ctx, raw stdjson.RawMessage) {
 
 // ---------------------------------------------------------------- C16
 
+// topLevelBlob: the value of the single field itself (a Message / custom / RawMessage value) as the
+// top-level argument, by value or by pointer
+func topLevelBlob(x any, ptr bool) any {
+	v := reflect.ValueOf(x)
+	if v.Kind() == reflect.Pointer {
+		v = v.Elem()
+	} else {
+		cp := reflect.New(v.Type()).Elem()
+		cp.Set(v)
+		v = cp
+	}
+	f := v.Field(0)
+	if ptr {
+		return f.Addr().Interface()
+	}
+	return f.Interface()
+}
+
 func c16Run(c *Ctx, k protoCase) {
 	l := lift{k.Salt}
 	x, t := goValue(l, k.Shape, k.Val, k.Ptr)
+	if k.What == "toplevel" {
+		x = topLevelBlob(x, k.Ptr)
+	}
 	// Marshal only serves as the byte-for-byte reference; that it never fails is C03's business
-	ref, err := proto.Marshal(x)
+	var ref []byte
+	var err error
+	size := 0
+	if pan := protect(func() { ref, err = proto.Marshal(x); size = proto.Size(x) }); pan != "" {
+		return // a panic in Marshal / Size is C03's business
+	}
 	refOK := err == nil
-	size := proto.Size(x)
 	want := treeString(l.treeOfAbstract(k.Shape, k.Val))
 	fail := func(w, g string) { c.Diverge("C16", "proto.MarshalTo", w, g, "", k) }
 	const guard = 24
@@ -604,6 +680,13 @@ func c16Vector(c *Ctx, raw stdjson.RawMessage) {
 	if sv, did := stretch(v.Shape, v.Val, 11+r.intn(3)); did {
 		c.Case()
 		c16Run(c, protoCase{Shape: v.Shape, Val: sv, Salt: 1})
+	}
+	// a value with marshalling methods of its own as the top-level argument
+	if len(v.Shape) == 1 && v.Shape[0].C == "one" && isBlobKind(v.Shape[0].K) {
+		for _, ptr := range []bool{false, true} {
+			c.Case()
+			c16Run(c, protoCase{Shape: v.Shape, Val: v.Val, Salt: 2, Ptr: ptr, What: "toplevel"})
+		}
 	}
 	// string lengths that take the enclosing records across the varint boundaries (see strLenSweep)
 	for _, n := range strLenSweep(c, r, v.Shape) {
